@@ -360,7 +360,12 @@ RINGRICH = ['C1CC1C1CC1', 'c1ccc(cc1)-c1ccccc1', 'C1CC2CC12',
             'C1CCC2(C1)CCCC2', 'C1CC2CCC1C2', 'C1CC1CC1CC1', 'C1CC1=C1CC1',
             'c1ccccc1C1CC1', 'C1CC1OC1CC1', 'C1CCC(CC1)C1CCCC1', 'C1CC1C=C',
             'C1=CC1C1CC1', 'c1ccc2ccccc2c1', 'C1CC2(C1)CC2', 'O1CC1C1CO1',
-            'C1CC1[CH]C1CC1', 'C1CC1C(=O)C1CC1', 'c1ccoc1-c1ccco1']
+            'C1CC1[CH]C1CC1', 'C1CC1C(=O)C1CC1', 'c1ccoc1-c1ccco1',
+            # rings closed THROUGH a metal atom (an adsorbate bridging one
+            # surface atom twice) and through two metal atoms
+            'C1C[Pt]1', '[Pt]1OCC1', 'C1C[Ru]1', 'CC1C[Pt]1', 'C1CC[Pt]1',
+            '[Pt]1C=C1', 'O1C[Pt]1', 'C1[Pt][Pt]1', 'C1C[Pt][Pt]1',
+            'C1C[Pt]1C1C[Pt]1']
 _RR = {}
 
 
